@@ -164,6 +164,7 @@ def runOp (st : DState) (toks : List String) (r : Recorded) : DState × List Str
   | ["crypt", s, pw] => withSeed s fun b d =>
     let (lib', evs) := crypt cfg env lib b d (unhex pw)
     ({ st with lib := lib' }, emit evs "ok")
+  | ["note"] => (st, ["< ok"])
   | ["numlangs"] => (st, [s!"< v={cfg.langs.length}"])
   | ["langname", li] =>
     let L := langAt cfg (num li)
